@@ -57,6 +57,34 @@ def show(out):
     return "%s %s" % (out["status"], out.get("info") or out.get("site") or "")
 
 
+# -- the board depicted in the file's leading comment ----------------------------------------
+
+_TILE = re.compile(r"\[(\d+)\|(<-|<>|->|v)\((X| )\)\]")
+_ARROWS = {"<-": 0, "<>": 1, "->": 2, "v": 3}
+
+
+def board_from_preamble(data):
+    """(moves, rewards, loose) as drawn in the `# Board:` comment, or None if the comment is
+    absent or drawn differently (then nothing is concluded from it)."""
+    try:
+        text = data.decode("utf-8")
+    except UnicodeDecodeError:
+        return None
+    if not text.startswith("# Board:"):
+        return None
+    mv, rw, lo = [], [], []
+    for ln in text.split("\n")[2:]:
+        if not ln.startswith("#"):
+            break
+        tiles = _TILE.findall(ln)
+        if not tiles or "".join(" [%s|%s(%s)]" % t for t in tiles) != ln[3:]:
+            return None
+        rw.append([int(t[0]) for t in tiles])
+        mv.append([_ARROWS[t[1]] for t in tiles])
+        lo.append([1 if t[2] == "X" else 0 for t in tiles])
+    return (mv, rw, lo) if mv else None
+
+
 # -- file names (C17) ---------------------------------------------------------
 
 def parse_name(rel):
